@@ -116,6 +116,7 @@ def check_matrix(acc, X):
             acc.violation("score-raised", case, f"{type(e).__name__}: {e}", dict(key, exc=type(e).__name__))
         if nontriv:
             acc.nt()
+        acc.outcome(V.name)
     # directly implemented scores
     acc.ev()
     case = {"x": [list(r) for r in X], "variant": "direct"}
